@@ -65,8 +65,9 @@ class Builder:
             from hdl21.role import RoleSet, Role
             from enum import Enum
             if bd.get("anonroles"):
-                # roles created without a name (h.Roles(n)), collected under their attribute names as the bundle decorator does
-                b.roles = RoleSet.from_dict({r: Role() for r in roles})
+                # roles created without a name (h.Roles(n)) and used by the leaves as such; collected under their attribute names afterwards, as the
+                # bundle decorator does once the class body has run
+                loose = {r: Role() for r in roles}
             else:
                 E = Enum(name + "Roles", {r: r for r in roles})
                 b.roles = RoleSet.from_enum(E)
@@ -76,10 +77,12 @@ class Builder:
                 kw["vis"] = h.signal.Visibility.PORT
                 kw["direction"] = getattr(h.signal.PortDir, s.get("dir", "NONE"))
             if s.get("src"):
-                kw["src"] = getattr(b.roles, s["src"])
+                kw["src"] = loose[s["src"]] if bd.get("anonroles") else getattr(b.roles, s["src"])
             if s.get("dest"):
-                kw["dest"] = getattr(b.roles, s["dest"])
+                kw["dest"] = loose[s["dest"]] if bd.get("anonroles") else getattr(b.roles, s["dest"])
             b.add(h.Signal(name=s["n"], width=s["w"], **kw))
+        if roles and bd.get("anonroles"):
+            b.roles = RoleSet.from_dict(loose)
         for sub in bd["subs"]:
             kw = {}
             if sub.get("role"):
@@ -129,7 +132,8 @@ class Builder:
         self.leaf(ref)
         key = (ref, json.dumps(pv))
         if key not in self.pcalls:
-            self.pcalls[key] = self.exts[ref]({n: v for n, v in pv})
+            # (a list stands for a tuple: a value the exporter has no representation for - the call can be made, the export fails)
+            self.pcalls[key] = self.exts[ref]({n: tuple(v) if isinstance(v, list) else v for n, v in pv})
         return self.pcalls[key]
 
     def target(self, of, pv=None):
